@@ -16,6 +16,7 @@ from rules.core import pat, atomics
 from rules.core.facts import Operand, Place
 
 CRATES = ["aranya_fast_channels"]
+THOROUGH_CONFIGS = ["cas"]   # thorough tier: the same rules on the cas_mutex build
 L = "aranya_fast_channels::memory::lender::"
 B = L + "biarc::"
 
